@@ -84,6 +84,11 @@ def scenario_of(case):
     scn["xp_out"] = case.get("xp_out")
     if case["kind"] == "precision" and case["sampler"] == "smc":
         scn["checkpoint"] = {"mode": "path", "every": 1}
+    if case["kind"] == "precision" and case["sampler"] in ("smc", "minipcn") and case["run_index"] % 2 == 0 and case["flow"] == "simflow":
+        # a proposal far wider than the prior support: the initial population is assembled from several proposal
+        # batches (reject - concatenate - trim), which is one more place where a requested precision can get lost
+        scn["flow"].update({"kind": "native", "alpha": 0.0, "inflate": 8.0})
+        scn["bounded_to_unbounded"] = False
     if case["flow"] != "simflow" and case.get("dtype") is not None:
         # the flow gets the same dtype request as the samples (Aspire passes it on)
         pass
